@@ -19,7 +19,9 @@ import sys
 wt, name, demo_src, tests_dir, demo_name = sys.argv[1:6]
 skip_suite = "--skip-suite" in sys.argv
 env = dict(os.environ, CARGO_NET_OFFLINE="true")
-crate = {"lib/tests": "sozu-lib", "command/tests": "sozu-command-lib", "bin/tests": "sozu", "e2e/tests": "sozu-e2e"}[tests_dir]
+crate = {"lib/tests": "sozu-lib", "command/tests": "sozu-command-lib", "bin/tests": "sozu", "e2e/tests": "sozu-e2e",
+         "e2e/src/tests": "sozu-e2e"}[tests_dir]
+E2E_MOD = tests_dir == "e2e/src/tests"   # demo is a module of the e2e crate: needs a `mod` line
 log = []
 
 
@@ -36,9 +38,18 @@ def patch_applied():
 def run_demo():
     os.makedirs(os.path.join(wt, tests_dir), exist_ok=True)
     shutil.copy(os.path.join(wt, demo_src), os.path.join(wt, tests_dir, demo_name + ".rs"))
-    rc, out = sh(f"cargo test --offline -p {crate} --test {demo_name} 2>&1 | tail -30")
+    if E2E_MOD:
+        modrs = os.path.join(wt, tests_dir, "mod.rs")
+        orig = open(modrs).read()
+        open(modrs, "w").write(orig + f"\nmod {demo_name};\n")
+        rc, out = sh(f"cargo test --offline -p sozu-e2e {demo_name} 2>&1 | tail -40")
+        open(modrs, "w").write(orig)
+        if re.search(r"running 0 tests", out) and not re.search(r"test result: .* [1-9]\d* passed|FAILED", out):
+            out += "\n[no test ran]"
+    else:
+        rc, out = sh(f"cargo test --offline -p {crate} --test {demo_name} 2>&1 | tail -30")
     os.remove(os.path.join(wt, tests_dir, demo_name + ".rs"))
-    ok = re.search(r"test result: ok", out) is not None and "FAILED" not in out
+    ok = re.search(r"test result: ok\. [1-9]", out) is not None and "FAILED" not in out and "[no test ran]" not in out
     return ok, out
 
 
